@@ -46,6 +46,8 @@ DOCS = {
     'blank-item-ol': '- a\n-\n\n1. b\n',            # a blank item between items (a buffer that is written to after List.read)
     'blank-item-ul': '- a\n-\n\n- b\n',
     'blank-item-last': '- a\n-\n\npara\n',
+    'code-pipe': 'a `x|y` b `p!q|r` c ``|`` d\n',      # code spans that rule out the first choices of a delimiter ladder
+    'unicode-punct': '这是**“重要”**。 so-called*“experts”* agree 「*(aside)*」 and a*“b”*c\n',     # flanking decided by non-ASCII punctuation
     'toc-def': '# t\n\n## [l]: /leak\n\n## [r]: </leak2> "x"\n',
     'toc-ref': '# t\n\n## [l] x\n\n## y [r]\n',
     'ext': '$x$ [[a|b]] {{m}}\ntext\n{{/m}}\n\n- item\n  > q `c`\n',
@@ -57,7 +59,7 @@ RENDER_CONFIGS = [
 QUICK_CONFIGS = [('Html', {}), ('Markdown', {}), ('LaTeX', {}), ('XWiki20', {})]
 QUICK_EXTRA_CONFIGS = [('Toc', {}), ('Pygments', {}), ('Pygments', {'style': 'monokai'})]
 QUICK_DOCS = ['code', 'setext', 'custom-tag', 'html-interrupt', 'quote-setext', 'empty-atx', 'entity-def', 'entity-inline']
-QUICK_EXTRA_DOCS = ['toc-ref', 'fence', 'tight-list', 'toc-def', 'table-probe-code', 'table-probe-html', 'table-line2']
+QUICK_EXTRA_DOCS = ['toc-ref', 'unicode-punct', 'code-pipe', 'fence', 'tight-list', 'toc-def', 'table-probe-code', 'table-probe-html', 'table-line2']
 
 
 SUBCLASS_DOCS = ['html', 'fence', 'atx', 'custom-tag', 'html-interrupt']
@@ -180,6 +182,13 @@ def render_value(doc_text, rname, opts):
                 toc = 'EXC ' + type(e).__name__
             val += '\n--toc--\n' + toc
     return val
+
+
+def render_value_in(r, doc_text):
+    """The output of one more document through an instance that is already in use.  For TocRenderer the value of a fresh session
+    carries the table of contents too; a reused instance is only asked for the same thing when it has collected nothing before
+    (the attribute accumulates by design), so here the output alone is compared, with the fresh session's toc part cut off."""
+    return r.render(Document(doc_text))
 
 
 def subclass_session(doc_text):
@@ -462,6 +471,23 @@ def run_step(step):
         # the second document through the same instance must come out as through a fresh one
         obs.append(({'kind': 'render', 'doc': step['doc'], 'renderer': rname, 'opts': ropts}, val))
         obs.append(('reset', defaults_ok()))
+    elif kind == 'same-instance':
+        # enter R, parse+render the first document, parse+render the second one, exit: the second output is the fresh one
+        cls = mt.renderer_class(step['renderer'])
+        try:
+            with cls(**step['opts']) as r:
+                try:
+                    r.render(Document(DOCS[step['first']]))
+                except Exception:  # noqa  (whatever the first document does is not judged here)
+                    pass
+                try:
+                    val = render_value_in(r, DOCS[step['doc']])
+                except Exception as e:  # noqa
+                    val = 'EXC ' + type(e).__name__
+        except Exception as e:  # noqa
+            val = 'EXC ' + type(e).__name__
+        obs.append(({'kind': 'render', 'doc': step['doc'], 'renderer': step['renderer'], 'opts': step['opts']}, val))
+        obs.append(('reset', defaults_ok()))
     elif kind == 'nested-exit':
         # a renderer context opened and closed while another one is still open: the statement's last sentence holds for it too
         # (on exit the token sets are the defaults, whatever is still open outside)
@@ -606,6 +632,8 @@ def run_history(ctx, history, source, confirm=True):
                 if want is None:
                     ctx.count('checks', 'fresh value missing (skipped)')
                     continue
+                if step['kind'] == 'same-instance' and '\n--toc--\n' in want:
+                    want = want.split('\n--toc--\n')[0]      # (output only, see render_value_in)
                 if i > 0:
                     if ctx.seen('dirty-signatures', repr(sig)):
                         ctx.count('signature', repr(sig)[:160])
@@ -637,6 +665,8 @@ def step_name(s):
         return 'subclass-session(%s)' % s['doc']
     if s['kind'] == 'reuse-after-render-error':
         return 'reuse-after-render-error(%s,%s)' % (s['how'], s['doc'])
+    if s['kind'] == 'same-instance':
+        return 'same-instance(%s: %s then %s)' % (s['renderer'], s['first'], s['doc'])
     if s['kind'] == 'nested-exit':
         return 'nested-exit(%s in %s)' % (s['inner'][0], s['outer'][0])
     if s['kind'] == 'toc-after-abort':
@@ -677,7 +707,14 @@ def quick_extra_alphabet():
         steps.append({'kind': 'reuse-after-render-error', 'how': how, 'doc': 'tight-list' if how != 'latex-verb' else 'code'})
     steps.append({'kind': 'nested-exit', 'outer': ['Ast', {}], 'inner': ['Html', {}]})
     steps.append({'kind': 'nested-exit', 'outer': ['Html', {}], 'inner': ['LaTeX', {}]})
+    for r, o in (('Html', {}), ('LaTeX', {}), ('Markdown', {}), ('Toc', {})):
+        for first, second in SAME_INSTANCE_PAIRS[:4]:
+            steps.append({'kind': 'same-instance', 'renderer': r, 'opts': o, 'first': first, 'doc': second})
     return steps
+
+
+# one renderer instance, two documents one after the other (what the first leaves on the instance must not show in the second)
+SAME_INSTANCE_PAIRS = [('code-pipe', 'code'), ('ref', 'toc-ref'), ('html', 'setext'), ('fence', 'code'), ('table', 'table-probe-code'), ('entity-def', 'entity-inline')]
 
 
 def quick_alphabet():
@@ -715,6 +752,9 @@ def full_alphabet():
     for how in REUSE_KINDS:
         for d in ('tight-list', 'code', 'latex-packages', 'setext'):
             steps.append({'kind': 'reuse-after-render-error', 'how': how, 'doc': d})
+    for r, o in RENDER_CONFIGS:
+        for first, second in SAME_INSTANCE_PAIRS:
+            steps.append({'kind': 'same-instance', 'renderer': r, 'opts': o, 'first': first, 'doc': second})
     for ro, oo in RENDER_CONFIGS:
         for ri, oi in RENDER_CONFIGS:
             if ro != 'Markdown' or ri != 'Markdown':       # (two MarkdownRenderers cannot be constructed one inside the other)
